@@ -363,3 +363,39 @@ func ModuleFuncs(prog *load.Program) []*ssa.Function {
 	sort.Slice(out, func(i, j int) bool { return out[i].String() < out[j].String() })
 	return out
 }
+
+// Deps lists, per property, the properties of the layers directly below it (DESIGN.md section 0.2).
+var Deps = map[string][]string{
+	"C03": {"C01"},
+	"C04": {"C02", "C03", "C19"},
+	"C05": {"C03", "C19"},
+	"C06": {"C01", "C02", "C03"},
+	"C07": {"C02", "C05", "C06", "C11", "C12", "C16"},
+	"C08": {"C02", "C05", "C06", "C07", "C09", "C12"},
+	"C09": {"C02"},
+	"C10": {"C02", "C04", "C05", "C06"},
+	"C11": {"C02", "C06", "C10", "C16"},
+	"C12": {"C02", "C06", "C10"},
+	"C13": {"C01", "C02", "C06", "C10", "C16"},
+	"C14": {"C05", "C13"},
+	"C15": {"C01", "C03"},
+	"C16": {"C03", "C04", "C05"},
+	"C18": {"C06", "C15"},
+	"C19": {"C01"},
+}
+
+// DepsClosure returns the transitive lower layers of a property, sorted.
+func DepsClosure(id string) []string {
+	seen := map[string]bool{}
+	var visit func(s string)
+	visit = func(s string) {
+		for _, d := range Deps[s] {
+			if !seen[d] && d != id {
+				seen[d] = true
+				visit(d)
+			}
+		}
+	}
+	visit(id)
+	return SortedKeys(seen)
+}
